@@ -6,6 +6,21 @@ Theorem C05_lists_priority : forall c sg,
 Proof. exact regular_lists_spec. Qed.
 Print Assumptions C05_lists_priority.
 
+(* included_any / excluded_any unfold to the plain user list OR a per-kind list; the per-kind part says exactly "its key is
+   in a list for one of its kinds", for single-kind and multi-kind contexts alike (the defect repaired by bc60e70 was
+   that a single-kind user context skipped the per-kind lists: the statement below has no such exception) *)
+Theorem C05_per_kind_lists : forall c ts, Forall (fun t => st_pre t = None) ts ->
+  (per_kind c ts = true <-> exists t x, In t ts /\ ctx_by_kind c (st_kind t) = Some x /\ In (c_key x) (st_values t)).
+Proof. exact per_kind_spec. Qed.
+Print Assumptions C05_per_kind_lists.
+Theorem C05_included_any_unfolds : forall c sg,
+  included_any c sg = (match ctx_key_by_kind c kind_user with Some k => find_key k (sg_included sg) (sg_pre_inc sg) | None => false end
+                       || per_kind c (sg_inc_ctx sg))%bool /\
+  excluded_any c sg = (match ctx_key_by_kind c kind_user with Some k => find_key k (sg_excluded sg) (sg_pre_exc sg) | None => false end
+                       || per_kind c (sg_exc_ctx sg))%bool.
+Proof. exact included_any_unfolds. Qed.
+Print Assumptions C05_included_any_unfolds.
+
 Theorem C05_membership : forall re_ok re_match o E P c n chain sg,
   sg_unbounded sg = false -> mem_str (sg_key sg) chain = false ->
   p_seg re_ok re_match o E P c (S n) chain sg =
